@@ -48,6 +48,10 @@ def main():
                 from harness import cli as _cli
                 _cli.FORCE_DIALECT[0] = doc["file_dialect_of_the_last_dataset_written"]
             ok = mod.replay(ctx, doc)
+            if ok is True and doc.get("found_failing_input", True) and not os.environ.get("VERIF_REPLAY_INPUT_ONLY"):
+                # the input-level replay sees nothing: the recorded case may depend on more than the stored input
+                # (the kind of argument, the history of the process, the order of the stream) -- fall back to the stream
+                ok = None
             if ok is None:
                 # no input-level replay for this kind of case: re-run the stream that produced it, with the
                 # recorded seed and tier, and look for a violation of the same oracle
@@ -62,9 +66,8 @@ def main():
                 ok = not again
                 print("re-ran %s %s seed=%s: %d violation(s) of %s" % (prop, ctx2.tier, ctx2.seed, len(again), want))
             print("replay %s: %s" % (args.replay, "property holds on this input" if ok else "FAILS"))
-            for v in ctx.violations:
-                if v is not None:
-                    print("VIOLATION property=%s replay=%s" % (prop, v.replay))
+            if not ok:
+                print("VIOLATION property=%s replay=%s" % (prop, args.replay))
             return 0 if ok else 1
         if aud["build_ok"]:
             try:
